@@ -255,4 +255,32 @@ theorem fit_hom (h : Hom P P' f) (o : Ops K Vx Vr J LLS) (nm : Num K) (cfg : Con
     · have hs' : ¬ (⟨f problem, finalReport P problem report⟩ : FitResult T' K).wasSuccessful = true := hs
       simp only [hs, hs']; rfl
 
+/-! ### restriction of a problem to an invariant set of states -/
+
+/-- `Inv` is preserved by the two operations that change the problem -/
+structure Preserved (P : LSP T K Vx Vr J) (Inv : T → Prop) : Prop where
+  setParams : ∀ t v, Inv t → Inv (P.setParams t v)
+  jacobian : ∀ t, Inv t → Inv (P.jacobian t).1
+
+/-- the same problem on the states satisfying `Inv` -/
+def subLSP (P : LSP T K Vx Vr J) (Inv : T → Prop) (h : Preserved P Inv) :
+    LSP { t : T // Inv t } K Vx Vr J where
+  setParams t v := ⟨P.setParams t.1 v, h.setParams t.1 v t.2⟩
+  params t := P.params t.1
+  residuals t := P.residuals t.1
+  jacobian t := (⟨(P.jacobian t.1).1, h.jacobian t.1 t.2⟩, (P.jacobian t.1).2)
+
+theorem subLSP_hom (P : LSP T K Vx Vr J) (Inv : T → Prop) (h : Preserved P Inv) :
+    Hom (subLSP P Inv h) P Subtype.val :=
+  ⟨fun _ => rfl, fun _ => rfl, fun _ _ => rfl, fun _ => rfl⟩
+
+/-- an invariant of `set_params` and `jacobian` holds for the problem the optimizer hands back -/
+theorem minimize_inv (P : LSP T K Vx Vr J) (Inv : T → Prop) (h : Preserved P Inv)
+    (o : Ops K Vx Vr J LLS) (nm : Num K) (cfg : Config K) (t : T) (ht : Inv t) :
+    Inv (minimize P o nm cfg t).1 := by
+  have := minimize_hom (subLSP_hom P Inv h) o nm cfg ⟨t, ht⟩
+  simp only at this
+  rw [this]
+  exact (minimize (subLSP P Inv h) o nm cfg ⟨t, ht⟩).1.2
+
 end Varpro.LM
